@@ -3,6 +3,8 @@ package main
 import (
 	"strings"
 
+	"github.com/gofiber/utils/v2"
+
 	"verifharness/internal/gen"
 )
 
@@ -11,6 +13,21 @@ var mediaOffers = []string{"text/html", "text/plain", "application/json", "appli
 var extOffers = []string{"html", "json", "txt", "xml", "png", ".css", "htm", "unknownext", "js"}
 var offerParams = []string{";a=1", ";b=2", ";a=1;b=2", ";b=2;a=1", ";charset=utf-8", ";A=CAPS", `;a="x y"`, `;a="x\"y"`,
 	"; a=1", ";version=1;v=1", `;a="1;b=2\",text/plain"`, ";c=3;a=2", ";a=2"}
+// the parameters of each offerParams entry, as (name, value as written inside the quotes or as token, quoted)
+type kv struct {
+	name, value string
+	quoted      bool
+}
+
+var offerKVs = map[string][]kv{
+	";a=1": {{"a", "1", false}}, ";b=2": {{"b", "2", false}}, ";a=1;b=2": {{"a", "1", false}, {"b", "2", false}},
+	";b=2;a=1": {{"b", "2", false}, {"a", "1", false}}, ";charset=utf-8": {{"charset", "utf-8", false}},
+	";A=CAPS": {{"A", "CAPS", false}}, `;a="x y"`: {{"a", "x y", true}}, `;a="x\"y"`: {{"a", `x\"y`, true}},
+	"; a=1": {{"a", "1", false}}, ";version=1;v=1": {{"version", "1", false}, {"v", "1", false}},
+	`;a="1;b=2\",text/plain"`: {{"a", `1;b=2\",text/plain`, true}}, ";c=3;a=2": {{"c", "3", false}, {"a", "2", false}},
+	";a=2": {{"a", "2", false}},
+}
+
 var charsets = []string{"utf-8", "iso-8859-1", "ascii", "utf-16", "UTF-8"}
 var encodings = []string{"gzip", "deflate", "br", "identity", "zstd", "compress"}
 var languages = []string{"en", "en-US", "en-GB", "de", "fr", "fr-CH", "da"}
@@ -23,9 +40,9 @@ var goodQ = []string{"0", "0.0", "0.00", "0.000", "0.5", "0.8", "0.9", "0.899", 
 var oddQ = []string{"", "1.5", "NaN", "1e400", "abc", "-1", "0.", ".5", "00", "0x1p-1", "Inf", "1e-400", "0.0000", "+0",
 	"1_0", "2", "0.5x", "1e0", "0e0", "-0", "infinity", "0.50000000000000001", "0.5000000000000001", "1.0000", "0,5"}
 
-var tokVals = []string{"1", "2", "3", "utf-8", "CAPS", "caps", "x"}
+var tokVals = []string{"1", "2", "3", "utf-8", "CAPS", "caps", "x", "1", "2", "v`1", "!#$%&'*+-.^_`|~"}
 var quotedVals = []string{"x y", "1", `x\"y`, `1;b=2\",text/plain`, "", "a,b", `\\`, `a\\`, "caPs", `q\"`, `,`, `;q=0`, "x\ty"}
-var pnames = []string{"a", "b", "c", "charset", "A", "B", "version", "v"}
+var pnames = []string{"a", "b", "c", "charset", "A", "B", "version", "v", "a", "b", "x`1", "k!#$%&'*+-.^_|~"}
 
 func ows(r *gen.Rand, tabs bool) string {
 	if tabs {
@@ -165,6 +182,71 @@ func genElem(r *gen.Rand, kind string, offers []string, pf profile) elem {
 		np = 1
 	}
 	used := map[string]bool{}
+	// aim at "the parameters of a range must all be present in the offer": take range and parameters
+	// from an offer that has parameters (all or some of them, in any order and letter case, sometimes
+	// with one value changed, under dupPar sometimes preceded by the same name with another value)
+	if (kind == "a" || kind == "f") && len(offers) > 0 && r.Chance(2, 5) {
+		o := gen.Pick(r, offers)
+		if i := strings.IndexByte(o, ';'); i > 0 {
+			if kvs, ok := offerKVs[o[i:]]; ok {
+				mt := o[:i]
+				if strings.IndexByte(mt, '/') == -1 {
+					mt = utils.GetMIME(mt)
+				}
+				switch r.Intn(8) {
+				case 0:
+					mt = "*/*"
+				case 1:
+					if j := strings.IndexByte(mt, '/'); j != -1 {
+						mt = mt[:j] + "/*"
+					}
+				}
+				e.rng = mt
+				np = 0
+				kvs = append([]kv(nil), kvs...)
+				if len(kvs) > 1 && r.Bool() {
+					kvs[0], kvs[1] = kvs[1], kvs[0]
+				}
+				if len(kvs) > 1 && r.Chance(1, 4) {
+					kvs = kvs[:1]
+				}
+				for _, x := range kvs {
+					p := param{ows1: ows(r, pf.tabs), ows2: ows(r, pf.tabs), name: x.name, quoted: x.quoted, value: x.value}
+					if !p.quoted && r.Chance(1, 4) {
+						p.quoted = true
+					}
+					if r.Chance(1, 3) {
+						p.name = mixCase(r, p.name)
+					}
+					if r.Chance(1, 4) && !strings.Contains(p.value, `\`) {
+						p.value = mixCase(r, p.value)
+					}
+					if r.Chance(1, 8) {
+						p.value = gen.Pick(r, tokVals)
+						p.quoted = false
+					}
+					if pf.dupPar && r.Chance(1, 2) {
+						d := param{ows1: ows(r, pf.tabs), ows2: ows(r, pf.tabs), name: p.name, value: gen.Pick(r, tokVals)}
+						if r.Bool() {
+							d.name = strings.ToUpper(d.name)
+						} else {
+							d.name = strings.ToLower(d.name)
+						}
+						if r.Chance(1, 4) {
+							// the other way round: the offer's value first, another value last
+							d.value, d.quoted, p.value, p.quoted = p.value, p.quoted, d.value, false
+						}
+						e.params = append(e.params, d)
+					}
+					used[strings.ToLower(p.name)] = true
+					e.params = append(e.params, p)
+					if pf.emptyPar && r.Chance(1, 4) {
+						e.params = append(e.params, param{ows1: ows(r, pf.tabs), ows2: ows(r, pf.tabs)})
+					}
+				}
+			}
+		}
+	}
 	if pf.emptyPar && r.Chance(1, 5) {
 		// an empty parameter right after the range ("text/html; ;a=1")
 		e.params = append(e.params, param{ows1: ows(r, pf.tabs), ows2: ows(r, pf.tabs)})
